@@ -375,7 +375,8 @@ func (h *harness) compareOne(p sysProgram, in *sysInput, e encoding, base []stri
 	c.Violate(sig, fmt.Sprintf("`%s` over input %s: ZSON gives %s, %s gives %s", p.text, in.name, short(base), e, short(got)), w)
 }
 
-// The two known defects, both specific to the ZNG scanner:
+// Signatures of the defects found so far that are specific to the ZNG scanner (the first is still
+// open, the second was repaired in /repo by a51bcc8de and is listed as "fixed": it suppresses nothing):
 const (
 	knownHiddenSys = "encoding-differs:zng:search:record-below-container"
 	knownTypeCache = "zng-frame-alias:type-value-cache"
